@@ -238,7 +238,7 @@ func finish(e *Exec, in *Input, obs []Obs, class string) *Result {
 		res.Class = cls
 	}
 	res.Nontrivial = nontriv
-	res.Counts = counts
+	res.Counts = append(counts, e.counts...)
 	res.Coq = coqCase(e, in, obs)
 	return res
 }
